@@ -168,6 +168,16 @@ def run_scenario(scn: dict, *, eager: bool = False) -> dict:
             st["inop"].discard(t)
             emit(ev="opend", t=t, op=name, res="ok", cc=cc(t), gc=gc())
 
+        def caller_pending(c: int) -> int:
+            u = st.get("starter", {}).get(c)
+            tu = st["tasks"].get(u) if u else None
+            if tu is None or tu.done():
+                return 0
+            for info in anyio.get_running_tasks():
+                if info.id == id(tu):
+                    return 1 if info.has_pending_cancellation() else 0
+            return 0
+
         def next_child() -> int | None:
             for c in range(2, nt + 1):
                 if c not in st["spawned"]:
@@ -208,6 +218,7 @@ def run_scenario(scn: dict, *, eager: bool = False) -> dict:
                     st["spawned"].append(ch)
                     g = gid(a)
                     st["members"].setdefault(g, []).append(ch)
+                    st.setdefault("starter", {})[ch] = t
                     emit(ev="spawn", g=g, c=ch, via="start", by=t)
                     try:
                         handle = await tg.start(child_main, ch, name=f"t{ch}", return_handle=True)
@@ -226,12 +237,13 @@ def run_scenario(scn: dict, *, eager: bool = False) -> dict:
                     if task_status is None or nstarted[0] >= 2:
                         continue
                     nstarted[0] += 1
+                    cpc = caller_pending(t)
                     try:
                         task_status.started(100 + t)
                     except RuntimeError:
-                        emit(ev="started", c=t, v=100 + t, res="err")
+                        emit(ev="started", c=t, v=100 + t, res="err", cpc=cpc)
                         raise
-                    emit(ev="started", c=t, v=100 + t, res="ok")
+                    emit(ev="started", c=t, v=100 + t, res="ok", cpc=cpc)
                 elif c == "hcancel":
                     h = st["handles"].get(a) or st.get("ownhandle", {}).get(a)
                     if h is not None:
@@ -344,7 +356,8 @@ def run_scenario(scn: dict, *, eager: bool = False) -> dict:
                 elif status == "failed":
                     rec_h["exc"] = leaves(h.exception)
                 hs.append(rec_h)
-            emit(ev="tgexit", t=t, g=g, raised=raised_name(out), leaves=leaves(out), handles=hs, gc=gc())
+            emit(ev="tgexit", t=t, g=g, raised=raised_name(out), leaves=leaves(out), handles=hs, gc=gc(),
+                 cc=cc(t))
             if out is not None:
                 raise out
             return ended
